@@ -34,6 +34,9 @@ type lifeModel struct {
 	serial    int
 	overrides bool
 	ops       []string
+	// rows obtained from AppendNewRow (sized for the table's width at that moment)
+	appended      int
+	firstAppended int // 1-based index into rows, 0 = none
 }
 
 func (m *lifeModel) newCell(text string, mask int, f ItemF) *lifeCell {
@@ -168,10 +171,36 @@ func lifeOps(withAlign, withSkip bool) []lifeOp {
 			m.rows = append(m.rows, []*lifeCell{a, b})
 			m.t.AddRowItems(a.ptr, b.ptr)
 		}},
-		{"AddRowItems(3 cells)  // wider than the header: a column without a header", func(m *lifeModel) bool { return len(m.rows) < 4 && m.ncols() < 3 }, func(m *lifeModel) {
-			a, b, cc := m.newCell("w1", mS, ItemF{}), m.newCell("w2", mS, ItemF{}), m.newCell("w3", mS, ItemF{})
-			m.rows = append(m.rows, []*lifeCell{a, b, cc})
-			m.t.AddRowItems(a.ptr, b.ptr, cc.ptr)
+		{"AddRowItems(3 cells) twice  // wider than the header: a column without a header, cells of different width in it", func(m *lifeModel) bool { return len(m.rows) < 3 && m.ncols() < 3 }, func(m *lifeModel) {
+			for _, third := range []string{"w3", "w3-wider"} {
+				a, b, cc := m.newCell("w1", mS, ItemF{}), m.newCell("w2", mS, ItemF{}), m.newCell(third, mS, ItemF{})
+				m.rows = append(m.rows, []*lifeCell{a, b, cc})
+				m.t.AddRowItems(a.ptr, b.ptr, cc.ptr)
+			}
+		}},
+		{"AppendNewRow() filled to the table's current width", func(m *lifeModel) bool { return len(m.rows) < 5 && m.appended < 2 }, func(m *lifeModel) {
+			r := m.t.AppendNewRow()
+			var cells []*lifeCell
+			for i := 0; i < m.ncols(); i++ {
+				m.serial++
+				lc := m.newCell(fmt.Sprintf("p%d", m.serial), mS, ItemF{})
+				cells = append(cells, lc)
+				r.Add(tabular.NewCell(lc.ptr))
+			}
+			m.rows = append(m.rows, cells)
+			m.appended++
+			if m.firstAppended == 0 {
+				m.firstAppended = len(m.rows)
+			}
+		}},
+		{"first AppendNewRow row .Add(cell)  // beyond the width it was sized for", func(m *lifeModel) bool {
+			return m.firstAppended > 0 && len(m.rows[m.firstAppended-1]) < 4
+		}, func(m *lifeModel) {
+			m.serial++
+			lc := m.newCell(fmt.Sprintf("x%d", m.serial), mS, ItemF{})
+			i := m.firstAppended - 1
+			m.rows[i] = append(m.rows[i], lc)
+			m.t.AllRows()[i].Add(tabular.NewCell(lc.ptr))
 		}},
 		{"row 2 .Add(cell)  // row already attached", func(m *lifeModel) bool { return len(m.rows[1]) < 2 }, func(m *lifeModel) {
 			a := m.newCell("late", mS, ItemF{})
@@ -235,9 +264,11 @@ func lifecycle(x *X, c *Chooser, prop string, depth int, ops []lifeOp, overrides
 	if lifeWideStart[prop] && c.Bool() {
 		// second starting point: the table already has a row wider than its header (a column without a header)
 		c.Logf("start: the table already has a third, header-less column")
-		a, b, cc := m.newCell("w1", mS, ItemF{}), m.newCell("w2", mS, ItemF{}), m.newCell("w3", mS, ItemF{})
-		m.rows = append(m.rows, []*lifeCell{a, b, cc})
-		m.t.AddRowItems(a.ptr, b.ptr, cc.ptr)
+		for _, third := range []string{"w3", "w3-wider"} {
+			a, b, cc := m.newCell("w1", mS, ItemF{}), m.newCell("w2", mS, ItemF{}), m.newCell(third, mS, ItemF{})
+			m.rows = append(m.rows, []*lifeCell{a, b, cc})
+			m.t.AddRowItems(a.ptr, b.ptr, cc.ptr)
+		}
 		m.ops = append(m.ops, "start-with-headerless-column")
 	}
 	var w lifeRenderer
